@@ -50,3 +50,32 @@ package table
 // call counter used by the write-ordering contracts of package leveldb (C04): table.Writer.Close writes the
 // index block and the footer
 //@ count (*Writer).Close
+
+// The reader takes the partition width and the offsets table from the filter block itself (a table may have been
+// written with another FilterBaseLg than the one configured now).
+//@ func (*Reader).readFilterBlock
+//@   props C16
+//@   mode bv
+//@   requires bh.length <= 1099511627776
+//@   ensures [layout-from-block] ret1 == nil ==> (ret0 != nil && fbwf(ret0) && ret0.baseLg == uint(ret0.data[len(ret0.data)-1]) && ret0.oOffset == int(le32(ret0.data, len(ret0.data)-5)))
+
+// io.ReaderAt fills (a prefix of) the buffer it is given.
+//@ interface io.ReaderAt.ReadAt
+//@   params p, off
+//@   effects M$uint8
+//@   ensures 0 <= ret0 && ret0 <= len(p)
+//@   modifies p[0:len(p)]
+
+// Raw block read: with checksum verification on, data is returned only if the stored (masked) CRC-32C of
+// block bytes ++ type byte matches; an unknown compression type is an error.
+//@ spec func blockcrc(b bytes) uint32 = crcmask(crcupd(0, b))
+//@ func (*Reader).readRawBlock
+//@   props C08 C13 C16
+//@   mode bv
+//@   safety off
+//@   requires bh.length <= 1099511627776
+//@   guarantees [C08,C13:checksum-gate] (ret1 == nil && verifyChecksum) ==> checksum0 == checksum1
+//@   at call (CRC).Value#1
+//@     assert [C08,C13:stored-crc-follows-block-and-type] n == bh.length + 1 && checksum0 == le32(data, int(bh.length) + 1) && len(data) == int(bh.length) + 5
+//@   at before call (*Reader).newErrCorruptedBH#1
+//@     assert [C08,C13:rejected-only-on-mismatch] checksum0 != checksum1 && checksum1 == blockcrc(bytes(data[:int(bh.length)+1]))
